@@ -322,7 +322,7 @@ func NewNNSDriver(mode string) *NNSDriver {
 		add(nnsOp{kind: "register", name: "aa.com", who: "U1", signer: s("U1")})
 	case "C12r":
 		d.pre = []string{"aa.com", "bb.com"}
-		d.names = []string{"aa.com", "bb.com", "x.aa.com", "y.x.aa.com", "yx.aa.com"}
+		d.names = []string{"aa.com", "bb.com", "x.aa.com", "y.x.aa.com", "yx.aa.com", "z.y.x.aa.com"}
 		u := s("U1")
 		add(
 			nnsOp{kind: "add", name: "aa.com", typ: rtTXT, data: "t1", signer: u},
@@ -350,6 +350,7 @@ func NewNNSDriver(mode string) *NNSDriver {
 			nnsOp{kind: "add", name: "x.aa.com", typ: rtTXT, data: "tx", signer: u},
 			nnsOp{kind: "del", name: "x.aa.com", typ: rtTXT, signer: u},
 			nnsOp{kind: "add", name: "y.x.aa.com", typ: rtTXT, data: "ty", signer: u},
+			nnsOp{kind: "add", name: "z.y.x.aa.com", typ: rtTXT, data: "tz", signer: u},   // two labels below x.aa.com, three below its token
 			nnsOp{kind: "add", name: "yx.aa.com", typ: rtTXT, data: "t", signer: u},       // shares a textual suffix with x.aa.com without a label boundary
 			nnsOp{kind: "add", name: "x.aa.com", typ: rtCNAME, data: "bb.com", signer: u}, // the one-CNAME rule is per name, also for a sub-name kept under aa.com
 			nnsOp{kind: "add", name: "x.aa.com", typ: rtCNAME, data: "cc.com", signer: u},
